@@ -41,7 +41,9 @@ def add_incompatibility_constraint(graph: nx.MultiDiGraph, nodes: List[DSGNode],
 
 def _get_canonical_edge(edge: EdgeTuple) -> EdgeTuple:
     source_node, target_node = sorted(edge[:2], key=lambda n: getattr(n, 'name', str(hash(n))))
-    return source_node, target_node, 0, edge[-1]
+    # Use a dedicated edge key: when the edge is added to a graph to mark it as infeasible, key 0 would overwrite
+    # whatever edge already exists between the two nodes (e.g. a derivation edge)
+    return source_node, target_node, 'incompatibility', edge[-1]
 
 
 def get_confirmed_incompatibility_edges(graph: nx.MultiDiGraph, start_nodes: Set[DSGNode]) -> Set[EdgeTuple]:
